@@ -280,15 +280,11 @@ impl Sim {
             self.start(i);
         }
         self.pt.inc = voters.clone();
-<<<<<<< HEAD
         // P-level traces only from runs whose application hands out real snapshots: plain
         // MemStorage::snapshot (a test double) raises the snapshot index to the requested one,
         // above the commit index, and a follower then reports uncommitted entries committed
         self.pt.enabled = sim_snap;
-=======
-        self.pt.enabled = true;
         self.pt.reads = !lease;
->>>>>>> preadrs
         self.with_mon(|m, s| m.on_boot(s));
     }
 
